@@ -1,3 +1,4 @@
+import Witverif.Generated.CastExprs
 import Witverif.Props.C04Backends.Rust
 import Witverif.Props.C04Backends.C
 import Witverif.Props.C04Backends.Cpp
@@ -9,7 +10,9 @@ import Witverif.Props.C04Backends.D
 
 `Generated.CastExprs.table` (regenerated on every check run from the output of the seven real
 generators on eight variant probes) lists the expressions emitted for
-`Bitcast::{None, F32ToI32, I32ToF32, F64ToI64, I64ToF64, I32ToI64, I64ToI32, F32ToI64, I64ToF32}`.
+`Bitcast::{None, F32ToI32, I32ToF32, F64ToI64, I64ToF64, I32ToI64, I64ToI32, F32ToI64, I64ToF32, I64ToP64, P64ToI64,
+I32ToP, PToI32, Sequence[F32ToI32,I32ToP], Sequence[PToI32,I32ToF32], Sequence[F64ToI64,I64ToP64],
+Sequence[P64ToI64,I64ToF64]}` (pointer slots under the wasm32 data model).
 
 * `table_shape`: exactly the expected lists;
 * `all_is_spec`: every expression is the canonical ABI's reinterpret / zero-extend / wrap conversion
@@ -18,15 +21,17 @@ generators on eight variant probes) lists the expressions emitted for
   `…_is_spec_partial`: canonical iff bit 31 is clear);
 * round trips (`<probe>_roundtrip` in the per-backend files) hold for **every** backend, including the
   sign-extending ones: the conversions are lossless.
-The pointer / length / pointer-or-i64 `Bitcast`s are not covered here (see the manifest). -/
+`Bitcast`s whose *operand* is a pointer or a length (`PToP64, P64ToP, PToL, LToP, I32ToL, LToI32, I64ToL, LToI64`)
+are not covered here (see the manifest). -/
 namespace Witverif.Props.C04Backends
 open Witverif.Scalar Witverif.Scalar.Spec Witverif.Generated
 set_option maxRecDepth 100000
 
-/-- lists whose lowering conversion sign-extends where the canonical ABI zero-extends (DESIGN §9 F3) -/
-def signExtending : List String := ["rust_I32ToI64_s32_s64", "rust_I32ToI64_u32_f64", "c_I32ToI64_s32_s64", "c_F32ToI64_f32_s64", "c_I32ToI64_u32_f64", "c_F32ToI64_f32_f64", "cpp_I32ToI64_s32_s64", "cpp_F32ToI64_f32_s64", "cpp_I32ToI64_u32_f64", "cpp_F32ToI64_f32_f64", "csharp_I32ToI64_s32_s64", "csharp_F32ToI64_f32_s64", "csharp_I32ToI64_u32_f64", "csharp_F32ToI64_f32_f64", "go_I32ToI64_s32_s64", "go_I32ToI64_u32_f64", "moonbit_I32ToI64_s32_s64", "moonbit_F32ToI64_f32_s64", "moonbit_I32ToI64_u32_f64", "moonbit_F32ToI64_f32_f64"]
+/-- lists whose lowering conversion sign-extends where the canonical ABI zero-extends (DESIGN §9 F3), and the
+C# `PToI32` list (ill-typed) -/
+def signExtending : List String := ["rust_I32ToI64_s32_s64", "rust_I32ToI64_u32_f64", "c_I32ToI64_s32_s64", "c_F32ToI64_f32_s64", "c_I32ToI64_u32_f64", "c_F32ToI64_f32_f64", "cpp_I32ToI64_s32_s64", "cpp_F32ToI64_f32_s64", "cpp_I32ToI64_u32_f64", "cpp_F32ToI64_f32_f64", "csharp_I32ToI64_s32_s64", "csharp_F32ToI64_f32_s64", "csharp_I32ToI64_u32_f64", "csharp_F32ToI64_f32_f64", "go_I32ToI64_s32_s64", "go_I32ToI64_u32_f64", "moonbit_I32ToI64_s32_s64", "moonbit_F32ToI64_f32_s64", "moonbit_I32ToI64_u32_f64", "moonbit_F32ToI64_f32_f64", "csharp_PToI32_s32_string"]
 
-theorem table_shape : CastExprs.table.map (·.1) = ["rust_F32ToI32_f32_s32", "rust_I32ToF32_f32_s32", "rust_F64ToI64_f64_s64", "rust_I64ToF64_f64_s64", "rust_I32ToI64_s32_s64", "rust_I64ToI32_s32_s64", "rust_F32ToI64_f32_s64", "rust_I64ToF32_f32_s64", "rust_None_s32_f32", "rust_I32ToI64_u32_f64", "rust_I64ToI32_u32_f64", "rust_F32ToI64_f32_f64", "rust_I64ToF32_f32_f64", "rust_F64ToI64_f64_f32", "rust_I64ToF64_f64_f32", "c_F32ToI32_f32_s32", "c_I32ToF32_f32_s32", "c_F64ToI64_f64_s64", "c_I64ToF64_f64_s64", "c_I32ToI64_s32_s64", "c_I64ToI32_s32_s64", "c_F32ToI64_f32_s64", "c_I64ToF32_f32_s64", "c_None_s32_f32", "c_I32ToI64_u32_f64", "c_I64ToI32_u32_f64", "c_F32ToI64_f32_f64", "c_I64ToF32_f32_f64", "c_F64ToI64_f64_f32", "c_I64ToF64_f64_f32", "cpp_F32ToI32_f32_s32", "cpp_I32ToF32_f32_s32", "cpp_F64ToI64_f64_s64", "cpp_I64ToF64_f64_s64", "cpp_I32ToI64_s32_s64", "cpp_I64ToI32_s32_s64", "cpp_F32ToI64_f32_s64", "cpp_I64ToF32_f32_s64", "cpp_None_s32_f32", "cpp_I32ToI64_u32_f64", "cpp_I64ToI32_u32_f64", "cpp_F32ToI64_f32_f64", "cpp_I64ToF32_f32_f64", "cpp_F64ToI64_f64_f32", "cpp_I64ToF64_f64_f32", "csharp_F32ToI32_f32_s32", "csharp_I32ToF32_f32_s32", "csharp_F64ToI64_f64_s64", "csharp_I64ToF64_f64_s64", "csharp_I32ToI64_s32_s64", "csharp_I64ToI32_s32_s64", "csharp_F32ToI64_f32_s64", "csharp_I64ToF32_f32_s64", "csharp_None_s32_f32", "csharp_I32ToI64_u32_f64", "csharp_I64ToI32_u32_f64", "csharp_F32ToI64_f32_f64", "csharp_I64ToF32_f32_f64", "csharp_F64ToI64_f64_f32", "csharp_I64ToF64_f64_f32", "go_F32ToI32_f32_s32", "go_I32ToF32_f32_s32", "go_F64ToI64_f64_s64", "go_I64ToF64_f64_s64", "go_I32ToI64_s32_s64", "go_I64ToI32_s32_s64", "go_F32ToI64_f32_s64", "go_I64ToF32_f32_s64", "go_None_s32_f32", "go_I32ToI64_u32_f64", "go_I64ToI32_u32_f64", "go_F32ToI64_f32_f64", "go_I64ToF32_f32_f64", "go_F64ToI64_f64_f32", "go_I64ToF64_f64_f32", "moonbit_F32ToI32_f32_s32", "moonbit_I32ToF32_f32_s32", "moonbit_F64ToI64_f64_s64", "moonbit_I64ToF64_f64_s64", "moonbit_I32ToI64_s32_s64", "moonbit_I64ToI32_s32_s64", "moonbit_F32ToI64_f32_s64", "moonbit_I64ToF32_f32_s64", "moonbit_None_s32_f32", "moonbit_I32ToI64_u32_f64", "moonbit_I64ToI32_u32_f64", "moonbit_F32ToI64_f32_f64", "moonbit_I64ToF32_f32_f64", "moonbit_F64ToI64_f64_f32", "moonbit_I64ToF64_f64_f32", "d_F32ToI32_f32_s32", "d_I32ToF32_f32_s32", "d_F64ToI64_f64_s64", "d_I64ToF64_f64_s64", "d_I32ToI64_s32_s64", "d_I64ToI32_s32_s64", "d_F32ToI64_f32_s64", "d_I64ToF32_f32_s64", "d_None_s32_f32", "d_I32ToI64_u32_f64", "d_I64ToI32_u32_f64", "d_F32ToI64_f32_f64", "d_I64ToF32_f32_f64", "d_F64ToI64_f64_f32", "d_I64ToF64_f64_f32"] := by
+theorem table_shape : CastExprs.table.map (·.1) = ["rust_F32ToI32_f32_s32", "rust_I32ToF32_f32_s32", "rust_F64ToI64_f64_s64", "rust_I64ToF64_f64_s64", "rust_I32ToI64_s32_s64", "rust_I64ToI32_s32_s64", "rust_F32ToI64_f32_s64", "rust_I64ToF32_f32_s64", "rust_None_s32_f32", "rust_I32ToI64_u32_f64", "rust_I64ToI32_u32_f64", "rust_F32ToI64_f32_f64", "rust_I64ToF32_f32_f64", "rust_F64ToI64_f64_f32", "rust_I64ToF64_f64_f32", "rust_I64ToP64_s64_string", "rust_P64ToI64_s64_string", "rust_I32ToP_s32_string", "rust_PToI32_s32_string", "rust_F32ToI32_I32ToP_f32_string", "rust_PToI32_I32ToF32_f32_string", "rust_F64ToI64_I64ToP64_f64_string", "rust_P64ToI64_I64ToF64_f64_string", "c_F32ToI32_f32_s32", "c_I32ToF32_f32_s32", "c_F64ToI64_f64_s64", "c_I64ToF64_f64_s64", "c_I32ToI64_s32_s64", "c_I64ToI32_s32_s64", "c_F32ToI64_f32_s64", "c_I64ToF32_f32_s64", "c_None_s32_f32", "c_I32ToI64_u32_f64", "c_I64ToI32_u32_f64", "c_F32ToI64_f32_f64", "c_I64ToF32_f32_f64", "c_F64ToI64_f64_f32", "c_I64ToF64_f64_f32", "c_I64ToP64_s64_string", "c_P64ToI64_s64_string", "c_I32ToP_s32_string", "c_PToI32_s32_string", "c_F32ToI32_I32ToP_f32_string", "c_PToI32_I32ToF32_f32_string", "c_F64ToI64_I64ToP64_f64_string", "c_P64ToI64_I64ToF64_f64_string", "cpp_F32ToI32_f32_s32", "cpp_I32ToF32_f32_s32", "cpp_F64ToI64_f64_s64", "cpp_I64ToF64_f64_s64", "cpp_I32ToI64_s32_s64", "cpp_I64ToI32_s32_s64", "cpp_F32ToI64_f32_s64", "cpp_I64ToF32_f32_s64", "cpp_None_s32_f32", "cpp_I32ToI64_u32_f64", "cpp_I64ToI32_u32_f64", "cpp_F32ToI64_f32_f64", "cpp_I64ToF32_f32_f64", "cpp_F64ToI64_f64_f32", "cpp_I64ToF64_f64_f32", "cpp_I64ToP64_s64_string", "cpp_P64ToI64_s64_string", "cpp_I32ToP_s32_string", "cpp_PToI32_s32_string", "cpp_F32ToI32_I32ToP_f32_string", "cpp_PToI32_I32ToF32_f32_string", "cpp_F64ToI64_I64ToP64_f64_string", "cpp_P64ToI64_I64ToF64_f64_string", "csharp_F32ToI32_f32_s32", "csharp_I32ToF32_f32_s32", "csharp_F64ToI64_f64_s64", "csharp_I64ToF64_f64_s64", "csharp_I32ToI64_s32_s64", "csharp_I64ToI32_s32_s64", "csharp_F32ToI64_f32_s64", "csharp_I64ToF32_f32_s64", "csharp_None_s32_f32", "csharp_I32ToI64_u32_f64", "csharp_I64ToI32_u32_f64", "csharp_F32ToI64_f32_f64", "csharp_I64ToF32_f32_f64", "csharp_F64ToI64_f64_f32", "csharp_I64ToF64_f64_f32", "csharp_I64ToP64_s64_string", "csharp_P64ToI64_s64_string", "csharp_I32ToP_s32_string", "csharp_PToI32_s32_string", "csharp_F32ToI32_I32ToP_f32_string", "csharp_PToI32_I32ToF32_f32_string", "csharp_F64ToI64_I64ToP64_f64_string", "csharp_P64ToI64_I64ToF64_f64_string", "go_F32ToI32_f32_s32", "go_I32ToF32_f32_s32", "go_F64ToI64_f64_s64", "go_I64ToF64_f64_s64", "go_I32ToI64_s32_s64", "go_I64ToI32_s32_s64", "go_F32ToI64_f32_s64", "go_I64ToF32_f32_s64", "go_None_s32_f32", "go_I32ToI64_u32_f64", "go_I64ToI32_u32_f64", "go_F32ToI64_f32_f64", "go_I64ToF32_f32_f64", "go_F64ToI64_f64_f32", "go_I64ToF64_f64_f32", "go_I64ToP64_s64_string", "go_P64ToI64_s64_string", "go_I32ToP_s32_string", "go_PToI32_s32_string", "go_F32ToI32_I32ToP_f32_string", "go_PToI32_I32ToF32_f32_string", "go_F64ToI64_I64ToP64_f64_string", "go_P64ToI64_I64ToF64_f64_string", "moonbit_F32ToI32_f32_s32", "moonbit_I32ToF32_f32_s32", "moonbit_F64ToI64_f64_s64", "moonbit_I64ToF64_f64_s64", "moonbit_I32ToI64_s32_s64", "moonbit_I64ToI32_s32_s64", "moonbit_F32ToI64_f32_s64", "moonbit_I64ToF32_f32_s64", "moonbit_None_s32_f32", "moonbit_I32ToI64_u32_f64", "moonbit_I64ToI32_u32_f64", "moonbit_F32ToI64_f32_f64", "moonbit_I64ToF32_f32_f64", "moonbit_F64ToI64_f64_f32", "moonbit_I64ToF64_f64_f32", "moonbit_I64ToP64_s64_string", "moonbit_P64ToI64_s64_string", "moonbit_I32ToP_s32_string", "moonbit_PToI32_s32_string", "moonbit_F32ToI32_I32ToP_f32_string", "moonbit_PToI32_I32ToF32_f32_string", "moonbit_F64ToI64_I64ToP64_f64_string", "moonbit_P64ToI64_I64ToF64_f64_string", "d_F32ToI32_f32_s32", "d_I32ToF32_f32_s32", "d_F64ToI64_f64_s64", "d_I64ToF64_f64_s64", "d_I32ToI64_s32_s64", "d_I64ToI32_s32_s64", "d_F32ToI64_f32_s64", "d_I64ToF32_f32_s64", "d_None_s32_f32", "d_I32ToI64_u32_f64", "d_I64ToI32_u32_f64", "d_F32ToI64_f32_f64", "d_I64ToF32_f32_f64", "d_F64ToI64_f64_f32", "d_I64ToF64_f64_f32", "d_I64ToP64_s64_string", "d_P64ToI64_s64_string", "d_I32ToP_s32_string", "d_PToI32_s32_string", "d_F32ToI32_I32ToP_f32_string", "d_PToI32_I32ToF32_f32_string", "d_F64ToI64_I64ToP64_f64_string", "d_P64ToI64_I64ToF64_f64_string"] := by
   rfl
 
 theorem all_nonempty : ∀ p ∈ CastExprs.table, p.2 ≠ [] := by
@@ -51,6 +56,14 @@ theorem all_is_spec : ∀ p ∈ CastExprs.table, p.1 ∉ signExtending → ∀ e
     fun _ => Rust.rust_I64ToF32_f32_f64_is_spec,
     fun _ => Rust.rust_F64ToI64_f64_f32_is_spec,
     fun _ => Rust.rust_I64ToF64_f64_f32_is_spec,
+    fun _ => Rust.rust_I64ToP64_s64_string_is_spec,
+    fun _ => Rust.rust_P64ToI64_s64_string_is_spec,
+    fun _ => Rust.rust_I32ToP_s32_string_is_spec,
+    fun _ => Rust.rust_PToI32_s32_string_is_spec,
+    fun _ => Rust.rust_F32ToI32_I32ToP_f32_string_is_spec,
+    fun _ => Rust.rust_PToI32_I32ToF32_f32_string_is_spec,
+    fun _ => Rust.rust_F64ToI64_I64ToP64_f64_string_is_spec,
+    fun _ => Rust.rust_P64ToI64_I64ToF64_f64_string_is_spec,
     fun _ => C.c_F32ToI32_f32_s32_is_spec,
     fun _ => C.c_I32ToF32_f32_s32_is_spec,
     fun _ => C.c_F64ToI64_f64_s64_is_spec,
@@ -66,6 +79,14 @@ theorem all_is_spec : ∀ p ∈ CastExprs.table, p.1 ∉ signExtending → ∀ e
     fun _ => C.c_I64ToF32_f32_f64_is_spec,
     fun _ => C.c_F64ToI64_f64_f32_is_spec,
     fun _ => C.c_I64ToF64_f64_f32_is_spec,
+    fun _ => C.c_I64ToP64_s64_string_is_spec,
+    fun _ => C.c_P64ToI64_s64_string_is_spec,
+    fun _ => C.c_I32ToP_s32_string_is_spec,
+    fun _ => C.c_PToI32_s32_string_is_spec,
+    fun _ => C.c_F32ToI32_I32ToP_f32_string_is_spec,
+    fun _ => C.c_PToI32_I32ToF32_f32_string_is_spec,
+    fun _ => C.c_F64ToI64_I64ToP64_f64_string_is_spec,
+    fun _ => C.c_P64ToI64_I64ToF64_f64_string_is_spec,
     fun _ => Cpp.cpp_F32ToI32_f32_s32_is_spec,
     fun _ => Cpp.cpp_I32ToF32_f32_s32_is_spec,
     fun _ => Cpp.cpp_F64ToI64_f64_s64_is_spec,
@@ -81,6 +102,14 @@ theorem all_is_spec : ∀ p ∈ CastExprs.table, p.1 ∉ signExtending → ∀ e
     fun _ => Cpp.cpp_I64ToF32_f32_f64_is_spec,
     fun _ => Cpp.cpp_F64ToI64_f64_f32_is_spec,
     fun _ => Cpp.cpp_I64ToF64_f64_f32_is_spec,
+    fun _ => Cpp.cpp_I64ToP64_s64_string_is_spec,
+    fun _ => Cpp.cpp_P64ToI64_s64_string_is_spec,
+    fun _ => Cpp.cpp_I32ToP_s32_string_is_spec,
+    fun _ => Cpp.cpp_PToI32_s32_string_is_spec,
+    fun _ => Cpp.cpp_F32ToI32_I32ToP_f32_string_is_spec,
+    fun _ => Cpp.cpp_PToI32_I32ToF32_f32_string_is_spec,
+    fun _ => Cpp.cpp_F64ToI64_I64ToP64_f64_string_is_spec,
+    fun _ => Cpp.cpp_P64ToI64_I64ToF64_f64_string_is_spec,
     fun _ => CSharp.csharp_F32ToI32_f32_s32_is_spec,
     fun _ => CSharp.csharp_I32ToF32_f32_s32_is_spec,
     fun _ => CSharp.csharp_F64ToI64_f64_s64_is_spec,
@@ -96,6 +125,14 @@ theorem all_is_spec : ∀ p ∈ CastExprs.table, p.1 ∉ signExtending → ∀ e
     fun _ => CSharp.csharp_I64ToF32_f32_f64_is_spec,
     fun _ => CSharp.csharp_F64ToI64_f64_f32_is_spec,
     fun _ => CSharp.csharp_I64ToF64_f64_f32_is_spec,
+    fun _ => CSharp.csharp_I64ToP64_s64_string_is_spec,
+    fun _ => CSharp.csharp_P64ToI64_s64_string_is_spec,
+    fun _ => CSharp.csharp_I32ToP_s32_string_is_spec,
+    fun h => absurd (by decide) h,
+    fun _ => CSharp.csharp_F32ToI32_I32ToP_f32_string_is_spec,
+    fun _ => CSharp.csharp_PToI32_I32ToF32_f32_string_is_spec,
+    fun _ => CSharp.csharp_F64ToI64_I64ToP64_f64_string_is_spec,
+    fun _ => CSharp.csharp_P64ToI64_I64ToF64_f64_string_is_spec,
     fun _ => Go.go_F32ToI32_f32_s32_is_spec,
     fun _ => Go.go_I32ToF32_f32_s32_is_spec,
     fun _ => Go.go_F64ToI64_f64_s64_is_spec,
@@ -111,6 +148,14 @@ theorem all_is_spec : ∀ p ∈ CastExprs.table, p.1 ∉ signExtending → ∀ e
     fun _ => Go.go_I64ToF32_f32_f64_is_spec,
     fun _ => Go.go_F64ToI64_f64_f32_is_spec,
     fun _ => Go.go_I64ToF64_f64_f32_is_spec,
+    fun _ => Go.go_I64ToP64_s64_string_is_spec,
+    fun _ => Go.go_P64ToI64_s64_string_is_spec,
+    fun _ => Go.go_I32ToP_s32_string_is_spec,
+    fun _ => Go.go_PToI32_s32_string_is_spec,
+    fun _ => Go.go_F32ToI32_I32ToP_f32_string_is_spec,
+    fun _ => Go.go_PToI32_I32ToF32_f32_string_is_spec,
+    fun _ => Go.go_F64ToI64_I64ToP64_f64_string_is_spec,
+    fun _ => Go.go_P64ToI64_I64ToF64_f64_string_is_spec,
     fun _ => MoonBit.moonbit_F32ToI32_f32_s32_is_spec,
     fun _ => MoonBit.moonbit_I32ToF32_f32_s32_is_spec,
     fun _ => MoonBit.moonbit_F64ToI64_f64_s64_is_spec,
@@ -126,6 +171,14 @@ theorem all_is_spec : ∀ p ∈ CastExprs.table, p.1 ∉ signExtending → ∀ e
     fun _ => MoonBit.moonbit_I64ToF32_f32_f64_is_spec,
     fun _ => MoonBit.moonbit_F64ToI64_f64_f32_is_spec,
     fun _ => MoonBit.moonbit_I64ToF64_f64_f32_is_spec,
+    fun _ => MoonBit.moonbit_I64ToP64_s64_string_is_spec,
+    fun _ => MoonBit.moonbit_P64ToI64_s64_string_is_spec,
+    fun _ => MoonBit.moonbit_I32ToP_s32_string_is_spec,
+    fun _ => MoonBit.moonbit_PToI32_s32_string_is_spec,
+    fun _ => MoonBit.moonbit_F32ToI32_I32ToP_f32_string_is_spec,
+    fun _ => MoonBit.moonbit_PToI32_I32ToF32_f32_string_is_spec,
+    fun _ => MoonBit.moonbit_F64ToI64_I64ToP64_f64_string_is_spec,
+    fun _ => MoonBit.moonbit_P64ToI64_I64ToF64_f64_string_is_spec,
     fun _ => D.d_F32ToI32_f32_s32_is_spec,
     fun _ => D.d_I32ToF32_f32_s32_is_spec,
     fun _ => D.d_F64ToI64_f64_s64_is_spec,
@@ -140,7 +193,15 @@ theorem all_is_spec : ∀ p ∈ CastExprs.table, p.1 ∉ signExtending → ∀ e
     fun _ => D.d_F32ToI64_f32_f64_is_spec,
     fun _ => D.d_I64ToF32_f32_f64_is_spec,
     fun _ => D.d_F64ToI64_f64_f32_is_spec,
-    fun _ => D.d_I64ToF64_f64_f32_is_spec⟩
+    fun _ => D.d_I64ToF64_f64_f32_is_spec,
+    fun _ => D.d_I64ToP64_s64_string_is_spec,
+    fun _ => D.d_P64ToI64_s64_string_is_spec,
+    fun _ => D.d_I32ToP_s32_string_is_spec,
+    fun _ => D.d_PToI32_s32_string_is_spec,
+    fun _ => D.d_F32ToI32_I32ToP_f32_string_is_spec,
+    fun _ => D.d_PToI32_I32ToF32_f32_string_is_spec,
+    fun _ => D.d_F64ToI64_I64ToP64_f64_string_is_spec,
+    fun _ => D.d_P64ToI64_I64ToF64_f64_string_is_spec⟩
 
 example : CastExprs.table ≠ [] := by decide
 end Witverif.Props.C04Backends
